@@ -277,6 +277,104 @@ def run_dd_restat(ctx, focus, nscen, salt=11):
     return scenarios
 
 
+def make_dd_behind_clean_history(g, sc):
+    """Work that is reachable only through what a dyndep file adds to a statement that is, and stays, up to date: the
+    served statement D reads a generated header H (known from the dyndep file alone); H's producer is clean, but it has an
+    order-only input X whose source was edited.  The dyndep file is regenerated in the same build (scanner configuration
+    touched, content unchanged), so the information is loaded in the middle of the build, D is found clean by the re-scan,
+    and X still has to be brought up to date before the build may say it succeeded - only D is asked for."""
+    r = g.r
+    cur = copy.deepcopy(sc)
+    served = [s for s in cur["stmts"] if s["dd"]]
+    if not served or "ddscan.src" not in cur["sources"]:
+        return None
+    d = r.choice(served)
+    src = d["ins"][0]
+    if d["dyndep"] in d["iins"]:
+        d["iins"].remove(d["dyndep"])
+        d["oins"].append(d["dyndep"])
+    k = d["id"]
+    cur["sources"]["gx_%s.c" % k] = "// behind the order-only input\n"
+    cur["sources"]["gh_%s.c" % k] = "// generated header source\n"
+    X = St("gx_" + k, ["o/gx_%s.o" % k], ins=["gx_%s.c" % k])
+    depth = r.randint(0, 1)
+    tail = X["outs"][0]
+    extra = [X]
+    if depth:
+        al = "algx_" + k
+        extra.append(St(al, [al], ins=[tail], kind="phony"))
+        tail = al
+    H = St("gh_" + k, ["o/gh_%s.h" % k], ins=["gh_%s.c" % k], oins=[tail])
+    if r.random() < 0.3:
+        H["vals"] = []
+    extra.append(H)
+    cur["stmts"] = extra + cur["stmts"] if r.random() < 0.5 else cur["stmts"] + extra
+    cur["sources"][src] = "#include %s\n" % H["outs"][0] + cur["sources"][src]
+    if cur["defaults"]:
+        cur["defaults"].append(d["outs"][0])
+    steps, meta = [], []
+
+    def add(step, **m):
+        steps.append(step)
+        m["sc"] = copy.deepcopy(cur)
+        meta.append(m)
+
+    def b(targets=None):
+        st = g.build_step(cur)
+        st["targets"] = [] if targets is None else targets
+        st.pop("faults", None)
+        return st
+    first = b()
+    add(first, kind="build", first=True)
+    add(dict(first, sched={"mode": "prng", "seed": r.randint(1, 10 ** 6)}), kind="rebuild")
+    for _ in range(r.randint(1, 2)):
+        descs = []
+        add({"op": "touch", "path": "ddscan.src"}, kind="change", desc=("touch", "ddscan.src"))
+        descs.append(("touch", "ddscan.src"))
+        p_ = "gx_%s.c" % k
+        cur["sources"][p_] += "// e%d\n" % r.randint(0, 10 ** 6)
+        add({"op": "write", "path": p_, "content": cur["sources"][p_]}, kind="change", desc=("edit", p_))
+        descs.append(("edit", p_))
+        y = b([d["outs"][0]])
+        y["j"] = r.choice((1, 1, 2, 3))
+        add(y, kind="build", changes=descs)
+        add(dict(y, sched={"mode": "prng", "seed": r.randint(1, 10 ** 6)}), kind="rebuild")
+    return cur, steps, meta
+
+
+def run_dd_behind_clean(ctx, focus, nscen, salt=19):
+    rng = random.Random(ctx.seed * 7919 + {"C01": 1, "C02": 2, "C03": 3}.get(focus, 0) + salt * 104729)
+    scenarios, metas = [], {}
+    for n in range(nscen):
+        g = gen.Gen(random.Random(rng.randint(0, 2 ** 60)), size=rng.randint(1, 4),
+                    feat=dict(dyndep=1.0, restat=0.2, phony=0.2, deps=0.2, generator=0.0, chain=0.7, early=0.0))
+        sc = g.scenario("%s-%d-ddc-%d" % (focus, ctx.seed, n))
+        h = make_dd_behind_clean_history(g, sc)
+        if h is None:
+            continue
+        cur0, steps, meta = h
+        scn = simlib.scenario_json(meta[0]["sc"], steps)
+        scenarios.append(scn)
+        metas[scn["id"]] = meta
+    judge = HistoryJudge(ctx, focus)
+
+    def handler(scn, results, err):
+        if results is None:
+            ctx.inconclusive += 1
+            ctx.count("nsim_died")
+            return
+        try:
+            judge.judge(scn, metas[scn["id"]], results)
+            ctx.count("dyndep_behind_clean_histories")
+        except Exception:
+            import traceback
+            traceback.print_exc()
+            ctx.inconclusive += 1
+            ctx.count("judge_exceptions")
+    simlib.run_scenarios(scenarios, handler)
+    return scenarios
+
+
 def make_dd_deps_history(g, sc):
     """A statement served by a dyndep file that also has discovered dependencies of its own (depfile / deps log).  What the
     scan finds out about those - record missing, or older than the output because the command failed after rewriting it, or
@@ -333,7 +431,7 @@ def make_dd_deps_history(g, sc):
             add({"op": "rm", "path": d["depfile"]}, kind="change", desc=("rm_depfile", d["depfile"]))
             descs.append(("rm_depfile", d["depfile"]))
         # ... and the dyndep file has to be made again in the next build
-        scan = next((s_ for s_ in cur["stmts"] if s_["kind"] == "scan" and d["dyndep"] in s_["outs"]), None)
+        scan = next((s_ for s_ in cur["stmts"] if s_["kind"] == "scan" and d["dyndep"] in s_["outs"] + s_["iouts"]), None)
         trig = None
         if scan is not None:
             cfgs = [x for x in scan["ins"] if x.startswith("ddscan")]
